@@ -241,7 +241,7 @@ open XPathV.Model
 predicates of any value kind: from every state reachable by any sequence of `Evaluate`, `Clone` and
 `Select` calls, `Evaluate` followed by a drain reports exactly the sequence of the plan for the new
 context node, and nothing else at any fuel. -/
-theorem evaluate_restarts_all_iterators' {F : Type} [NumAlg F] (d : Doc) (cfg : ECfg) (dec : Plan → Ref → Bool) (hd : 0 < d.length)
+theorem evaluate_restarts_all_iterators_any_predicate {F : Type} [NumAlg F] (d : Doc) (cfg : ECfg) (dec : Plan → Ref → Bool) (hd : 0 < d.length)
     (p0 : Plan) (hw : NeedsWF p0 → WF d) (q : PQ2)
     (hr : Reach d cfg dec p0 q) (c : Ref) (hdec : q.DecOK' (F := F) d cfg dec c) (hg : Good d c) :
     ∃ l, sel (F := F) d cfg p0 c = .ok l ∧
